@@ -26,7 +26,7 @@ FLOORS = {"quick": {"departures_checked": 30000, "waited_for_tokens": 5000, "cap
                        "oversize_packets": 10000, "pair_inequalities": 4000000, "peak_spacings": 100000,
                        "colours_checked": 200000, "red": 20000, "yellow": 20000, "green": 20000,
                        "green_pairs": 1000000, "must_be_green": 6000, "zero_peak_bucket_heads": 1000}}
-KEYS = tuple(FLOORS["quick"].keys()) + ("tb_cases", "trtb_cases", "exact_cases", "float_cases", "fast_cases", "precoloured_packets", "same_object_again")
+KEYS = tuple(FLOORS["quick"].keys()) + ("tb_cases", "trtb_cases", "exact_cases", "float_cases", "fast_cases", "precoloured_packets", "same_object_again", "debug_tracing_cases", "zero_size_packets")
 # floors for the situations added with the later rounds of seeded changes (evidence that they were really exercised)
 FLOORS["quick"].update({'same_object_again': 2500})
 FLOORS["thorough"].update({'same_object_again': 12500})
@@ -82,7 +82,15 @@ def gen_case(rng, i):
     for a in arr:
         if rng.random() < 0.25:
             a["precolour"] = rng.choice(["green", "yellow", "red"])
-    case = {"flavour": flavour, "arrivals": arr, "fast": fast}
+    case = {"flavour": flavour, "arrivals": arr, "fast": fast, "debug": rng.random() < 0.15}       # (tracing switched on changes nothing)
+    if not fast and rng.random() < 0.25:
+        # zero-length packets (end-of-stream markers) in between
+        for a in arr:
+            if rng.random() < 0.2 and not a.get("again"):
+                a["size"] = 0
+        for k in range(1, len(arr)):
+            if arr[k].get("again"):
+                arr[k]["size"] = arr[k - 1]["size"]
     if not two:
         case.update({"kind": "tb", "rate": rate, "bucket": B,
                      "peak": rng.choice([None, None, rate * 4, rate * 2, rate * 8, rate, rate / 2])})
@@ -128,11 +136,11 @@ def run_case(case, stats):
     exact = case["flavour"] == "exact"
     eq = (lambda a, b: a == b) if exact else (lambda a, b: vnet.close(a, b, rel=1e-9, abs_=1e-13))
     if case["kind"] == "tb":
-        el = TokenBucket(env, case["rate"], case["bucket"], peak=case["peak"])
+        el = TokenBucket(env, case["rate"], case["bucket"], peak=case["peak"], debug=bool(case.get("debug")))
         rate, B, peak = case["rate"], case["bucket"], case["peak"]
         stats["tb_cases"] += 1
     else:
-        el = TwoRateTokenBucket(env, case["cir"], case["cbs"], case["pir"], case["pbs"])
+        el = TwoRateTokenBucket(env, case["cir"], case["cbs"], case["pir"], case["pbs"], debug=bool(case.get("debug")))
         if case["pir"]:
             rate, B = case["pir"], case["pbs"]
         else:
@@ -163,6 +171,9 @@ def run_case(case, stats):
             net.driver(el, mine, on_inject=precolour)
     if case.get("fast"):
         stats["fast_cases"] += 1
+    if case.get("debug"):
+        stats["debug_tracing_cases"] += 1
+    stats["zero_size_packets"] += sum(1 for a in case["arrivals"] if a["size"] == 0)
     err = net.run()
     if err:
         bad(err, "the run raised", net.errors[-1] if net.errors else err)
